@@ -288,7 +288,7 @@ class PathWalker:
                     if isinstance(sv_s, (ast.Tuple, ast.List)) and len(sv_s.elts) == len(t.elts) and all(isinstance(x, ast.Name) for x in t.elts):
                         for x, y in zip(t.elts, sv_s.elts):
                             e2[x.id] = y  # type: ignore[attr-defined]
-                    elif all(isinstance(x, ast.Name) for x in t.elts) and isinstance(sv_s, (ast.Name, ast.Attribute, ast.Subscript)):
+                    elif all(isinstance(x, ast.Name) for x in t.elts) and isinstance(sv_s, (ast.Name, ast.Attribute, ast.Subscript, ast.Call)):
                         # a, b, c = seq  ->  a = seq[0], b = seq[1], c = seq[2]
                         for i, x in enumerate(t.elts):
                             e2[x.id] = ast.Subscript(value=clone(sv_s), slice=ast.Constant(value=i), ctx=ast.Load())  # type: ignore[attr-defined]
